@@ -206,6 +206,8 @@ def _ax_mul(t):
             out.append(('S2i', z3.Implies(z3.And(x > 0, k >= 0), bl(t) == bl(x) + k)))
             out.append(('M.sign', z3.Implies(k >= 0, z3.And((t >= 0) == (x >= 0), (t > 0) == (x > 0), (t == 0) == (x == 0)))))
             out.append(('M.ge', z3.Implies(z3.And(x >= 0, k >= 0), t >= x)))
+            if 'MM' in EXTRA:
+                out.append(('M.ge2', z3.Implies(z3.And(x >= 0, k >= 1), t >= 2 * x)))
             break
     return out
 
@@ -315,7 +317,7 @@ def instantiate(formulas, rounds: int = 2, heavy: bool = True):
         if not last:
             for f_ in work + axioms:
                 for i, t in _MULS.get(f_.get_id(), {}).items():
-                    emit(('mul', i), lambda t=t: _ax_mul(t))
+                    emit(('mul', i, 'MM' in EXTRA), lambda t=t: _ax_mul(t))
         if 'MM' in EXTRA and not last:
             # products with a power of two: those of the query plus q*2^k of every exact-division definition
             ml = {}
@@ -384,6 +386,8 @@ def selftest_schemas(limit: int = 40) -> dict:
                 bad['S4b'] = (k,)
             if P(k) <= k:
                 bad['P.ge'] = (k,)
+            if k >= 1 and x * P(k) < 2 * x:
+                bad['M.ge2'] = (x, k)
             if P(k) <= x < 2 * P(k) and (x // P(k) != 1 or x % P(k) != x - P(k)):
                 bad['DM.one'] = (x, k)
             for j in range(k, 10):
